@@ -202,7 +202,6 @@ func checkC12(c C12Case, r *Rec) *Violation {
 			}
 			// (iii) what the consumer holds after all evaluations is what it received
 			var opEvents []m.Ev
-			var fastFlags []bool
 			prevPos := int16(-1)
 			for i, rec := range recs {
 				switch rec.ev.EventType {
@@ -231,7 +230,6 @@ func checkC12(c C12Case, r *Rec) *Violation {
 						args[k] = p
 					}
 					opEvents = append(opEvents, m.Ev{Op: d.OpName, Args: args, Res: d.Res, Err: d.Err})
-					fastFlags = append(fastFlags, d.IsFastOp)
 				default:
 					return Violf("C12: unknown event type %q\n%s", rec.ev.EventType, where())
 				}
@@ -243,14 +241,6 @@ func checkC12(c C12Case, r *Rec) *Violation {
 				if rerr != m.ErrOptionalFetch {
 					if !MatchTrace(opEvents, ref.Apps) {
 						return Violf("C12: the OP_EXEC events are not the operator applications of the evaluation (name, arguments as at call time, result)\n%s\nevents      =%v\napplications=%v", where(), m.TraceStrings(opEvents), m.TraceStrings(ref.Apps))
-					}
-					// the IsFastOp flag, for events that correspond one-to-one
-					if len(opEvents) == len(ref.Apps) {
-						for i := range opEvents {
-							if fastFlags[i] != ref.Apps[i].Fast {
-								return Violf("C12: OP_EXEC event %d (%s) reports IsFastOp=%v\n%s", i, opEvents[i].Op, fastFlags[i], where())
-							}
-						}
 					}
 				}
 				for _, a := range ref.Apps {
